@@ -164,12 +164,15 @@ Qed.
 
 (* CTMCGridGeometric.__init__ / create_with_bounds, one axis, EVERY real l, h, r, nb: whenever the constructor's guards let
    it return, the axis is admissible, has 2nb+1 states, origin index nb and its end points are exactly (l, r) *)
+(* wave 7: no hypothesis on h -- the repaired constructor rejects h <= 0 (F-C13-7); 0 < h, l < -h, h < r are conclusions *)
 Theorem geometric_admissible_R l h r nb xs o :
-  0 < h -> geometric_axis_R l h r nb = Some (xs, o) ->
-  admissibleR xs o h /\ headr xs = l /\ lastr xs = r /\ o = nb /\ length xs = (2 * nb + 1)%nat.
+  geometric_axis_R l h r nb = Some (xs, o) ->
+  admissibleR xs o h /\ headr xs = l /\ lastr xs = r /\ o = nb /\ length xs = (2 * nb + 1)%nat
+  /\ 0 < h /\ l < - h /\ h < r /\ (2 <= nb)%nat.
 Proof.
-  intros Hh. unfold geometric_axis_R.
+  unfold geometric_axis_R.
   destruct (Nat.ltb_spec nb 2) as [|Hnb]; [discriminate|].
+  destruct (Rle_dec h 0) as [|Hh0]; [discriminate|]. assert (Hh : 0 < h) by lra.
   destruct (Rlt_dec l (- h)) as [G1|]; [|discriminate]. destruct (Rlt_dec h r) as [G2|]; [|discriminate].
   intros E.
   assert (S1 : same_sign_lt l (- h)) by (right; lra).
@@ -180,17 +183,28 @@ Proof.
   specialize (A (geomspace_R_incr _ _ nb S1) (geomspace_R_incr _ _ nb S2) N1 N2 Hh
                 (geomspace_R_last _ _ nb Hnb S1) (geomspace_R_head _ _ nb ltac:(lia))).
   unfold assembleR in *. cbn [app] in *. destruct A as (A1 & A2 & A3 & A4). injection E as E1 E2. subst xs o.
-  split; [exact A1|]. split; [|split; [|split]].
+  split; [exact A1|]. split; [|split; [|split; [|split; [|repeat split; assumption]]]].
   - rewrite A2. apply geomspace_R_head. lia.
   - rewrite A3. apply geomspace_R_last; assumption.
   - apply geomspace_R_length.
   - rewrite app_length. simpl. rewrite !geomspace_R_length. lia.
 Qed.
 
-Theorem geometric_guards_suffice_R l h r nb :
-  (2 <= nb)%nat -> l < - h -> h < r -> exists xs, geometric_axis_R l h r nb = Some (xs, nb).
+(* the converse direction of the guards: each violated guard makes the constructor refuse (ValueError) *)
+Theorem geometric_rejects_R l h r nb :
+  (nb < 2)%nat \/ h <= 0 \/ - h <= l \/ r <= h -> geometric_axis_R l h r nb = None.
 Proof.
-  intros Hn G1 G2. unfold geometric_axis_R. destruct (Nat.ltb_spec nb 2) as [|_]; [lia|].
+  intros H. unfold geometric_axis_R. destruct (Nat.ltb_spec nb 2) as [|Hnb]; [reflexivity|].
+  destruct (Rle_dec h 0); [reflexivity|]. destruct (Rlt_dec l (- h)); [|reflexivity]. destruct (Rlt_dec h r); [|reflexivity].
+  exfalso. destruct H as [H|[H|[H|H]]]; [lia|lra|lra|lra].
+Qed.
+
+(* wave 7 (audit 4, D4): 0 < h is a guard of its own; without it the statement was true of the model only *)
+Theorem geometric_guards_suffice_R l h r nb :
+  (2 <= nb)%nat -> 0 < h -> l < - h -> h < r -> exists xs, geometric_axis_R l h r nb = Some (xs, nb).
+Proof.
+  intros Hn Hh G1 G2. unfold geometric_axis_R. destruct (Nat.ltb_spec nb 2) as [|_]; [lia|].
+  destruct (Rle_dec h 0); [lra|].
   destruct (Rlt_dec l (- h)); [|contradiction]. destruct (Rlt_dec h r); [|contradiction].
   unfold assembleR. rewrite geomspace_R_length. eexists. reflexivity.
 Qed.
@@ -365,13 +379,13 @@ Qed.
 
 (* the composition the property asks for: the geometric grid (every real bound the guards accept), refined n times *)
 Theorem geometric_refine_n_R n l h r nb xs o :
-  0 < h -> geometric_axis_R l h r nb = Some (xs, o) ->
+  geometric_axis_R l h r nb = Some (xs, o) ->
   admissibleR (refineR_n n xs) (2 ^ n * nb) (h / 2 ^ n)
   /\ (forall i, (i < 2 * nb + 1)%nat -> nthr (refineR_n n xs) (2 ^ n * i) = nthr xs i)
   /\ length (refineR_n n xs) = (2 ^ n * (2 * nb) + 1)%nat
   /\ headr (refineR_n n xs) = l /\ lastr (refineR_n n xs) = r.
 Proof.
-  intros Hh E. destruct (geometric_admissible_R _ _ _ _ _ _ Hh E) as (A & H1 & H2 & H3 & H4).
+  intros E. destruct (geometric_admissible_R _ _ _ _ _ _ E) as (A & H1 & H2 & H3 & H4 & _).
   destruct (refineR_n_nests n xs o h A) as (R1 & R2 & R3 & R4 & R5). subst o. rewrite H4 in *.
   split; [exact R1|]. split; [exact R2|]. split; [rewrite R3; f_equal; f_equal; lia|].
   rewrite R4, R5. split; assumption.
@@ -389,19 +403,22 @@ Proof.
 Qed.
 
 (* the Q model (rational common ratios) is the R model, state by state, for the whole assembled axis *)
-Theorem geometric_axis_Q2R h ql qr nb xs o : (0 < h)%Q -> (0 < ql)%Q -> (0 < qr)%Q ->
+Theorem geometric_axis_Q2R h ql qr nb xs o : (0 < ql)%Q -> (0 < qr)%Q ->
   geometric_axis h ql qr nb = Some (xs, o) ->
   exists ys, geometric_axis_R (Q2R (geom_l h ql nb)) (Q2R h) (Q2R (geom_r h qr nb)) nb = Some (ys, o)
              /\ length ys = length xs /\ forall i, (i < length xs)%nat -> Q2R (nthq xs i) = nthr ys i.
 Proof.
-  intros Hh Hl Hr E. destruct (geometric_admissible _ _ _ _ _ _ Hh Hl Hr E) as (_ & _ & _ & Ho & Hlen & L1 & R1).
+  intros Hl Hr E. destruct (geometric_admissible _ _ _ _ _ _ Hl Hr E) as (_ & _ & _ & Ho & Hlen & L1 & R1 & Hh).
   unfold geometric_axis in E. destruct (Nat.ltb_spec nb 2) as [|Hnb]; [discriminate|].
+  destruct (Qltb 0 h) eqn:G0; [|discriminate]. cbn [negb] in E.
   destruct (Qltb (geom_l h ql nb) (- h)) eqn:G1; [|discriminate].
   destruct (Qltb h (geom_r h qr nb)) eqn:G2; [|discriminate]. cbn [andb] in E.
   apply Qltb_lt in G1. apply Qltb_lt in G2. apply Qlt_Rlt in G1. apply Qlt_Rlt in G2. rewrite Q2R_opp in G1.
-  destruct (geometric_guards_suffice_R _ _ _ nb Hnb G1 G2) as [ys Ey]. exists ys. subst o.
+  assert (HhR : 0 < Q2R h) by (apply Qlt_Rlt in Hh; unfold Q2R in Hh at 1; simpl in Hh; lra).
+  destruct (geometric_guards_suffice_R _ _ _ nb Hnb HhR G1 G2) as [ys Ey]. exists ys. subst o.
   split; [exact Ey|].
   unfold geometric_axis_R in Ey. destruct (Nat.ltb_spec nb 2) as [|_]; [lia|].
+  destruct (Rle_dec (Q2R h) 0); [lra|].
   destruct (Rlt_dec (Q2R (geom_l h ql nb)) (- Q2R h)); [|contradiction].
   destruct (Rlt_dec (Q2R h) (Q2R (geom_r h qr nb))); [|contradiction].
   unfold assembleR in Ey. unfold assemble in E. injection Ey as Ey _. injection E as E _. subst xs ys.
@@ -426,10 +443,15 @@ Lemma geometric_R_example : exists xs, geometric_axis_R (-2) (1 / 4) 3 4 = Some 
   /\ admissibleR xs 4 (1 / 4) /\ length xs = 9%nat /\ headr xs = -2 /\ lastr xs = 3
   /\ admissibleR (refineR_n 3 xs) 32 (1 / 4 / 2 ^ 3) /\ same_sign_lt (-2) (- (1 / 4)) /\ same_sign_lt (1 / 4) 3.
 Proof.
-  destruct (geometric_guards_suffice_R (-2) (1 / 4) 3 4 ltac:(lia) ltac:(lra) ltac:(lra)) as [xs E].
+  destruct (geometric_guards_suffice_R (-2) (1 / 4) 3 4 ltac:(lia) ltac:(lra) ltac:(lra) ltac:(lra)) as [xs E].
   exists xs. split; [exact E|].
-  destruct (geometric_admissible_R (-2) (1 / 4) 3 4%nat xs 4%nat ltac:(lra) E) as (A & H1 & H2 & _ & H4).
+  destruct (geometric_admissible_R (-2) (1 / 4) 3 4%nat xs 4%nat E) as (A & H1 & H2 & _ & H4 & _).
   destruct (refineR_n_nests 3 xs 4 (1 / 4) A) as (R1 & _).
   split; [exact A|]. split; [exact H4|]. split; [exact H1|]. split; [exact H2|]. split; [exact R1|].
   split; [right; lra|left; lra].
 Qed.
+
+(* wave 7: the audit's witness of F-C13-7 (h = -1, bounds (-5, 3), nb = 3: the unrepaired code returned [-5, nan, 1, 0, -1, nan, 3])
+   and h = 0 are refused by the repaired constructor *)
+Lemma geometric_R_rejects_example : geometric_axis_R (-5) (-1) 3 3 = None /\ geometric_axis_R (-5) 0 3 3 = None.
+Proof. split; apply geometric_rejects_R; right; left; lra. Qed.
